@@ -1,6 +1,7 @@
 package checks
 
 import (
+	"sort"
 	"bytes"
 	"fmt"
 	"regexp"
@@ -214,7 +215,14 @@ func c28explore(ctx *vc.Ctx, kind, prog string, bound int) {
 			return "panic", "panic: " + p.Value + " in " + site, fmt.Sprintf("%s subscriber, user program %q: thread %s panicked: %s\n%s", kind, prog, p.Thread, p.Value, p.Stack)
 		}
 		if !x.RootDone {
-			return "stuck", "deadlock", fmt.Sprintf("%s/%s blocked: %+v", kind, prog, x.Blocked)
+			var who []string
+			for _, b := range x.Blocked {
+				if b.Thread != "root" && b.Thread != "agent" {
+					who = append(who, fmt.Sprintf("%s in %s", b.Thread, b.Where))
+				}
+			}
+			sort.Strings(who)
+			return "stuck", "deadlock: " + strings.Join(who, ", "), fmt.Sprintf("%s subscriber, user program %q: no thread can run; blocked: %+v", kind, prog, x.Blocked)
 		}
 		lateProg := prog == "closed-before" || prog == "racing-close" || prog == "agent-dropped-before"
 		if len(userErr) > 0 && !lateProg {
